@@ -34,7 +34,7 @@ def self_field(t, name):
     return isinstance(t, tuple) and t[0] == "field" and t[2] == name and t[1][0] == "local" and t[1][2] == "self"
 
 
-def check_r121(fx, rep):
+def check_r121(fx, rep, require_stable=False):
     adt = fx.adt(LAYOUT)
     if not rep.anchor("R12.1", adt is not None, "the StorageLayout type"):
         return
@@ -80,7 +80,7 @@ def check_r121(fx, rep):
     # helpers that do nothing to the vector but sort it by the right key: a call of one counts as the sort
     sort_helpers = set()
     for fn, ws in writers.items():
-        if all(m in SORTS for m, _, _ in ws) and all(sort_key_ok(n, m)[0] for m, n, _ in ws):
+        if all(m in SORTS for m, _, _ in ws) and all(sort_key_ok(n, m)[0] for m, n, _ in ws) and not (require_stable and any("unstable" in m for m, _, _ in ws)):
             sort_helpers.add(F.strip_generics(fn))
     for fn, ws in sorted(writers.items()):
         b = fx.body(fn)
@@ -122,6 +122,8 @@ def check_r121(fx, rep):
                     cond = any(anc.get("k") in ("If", "Match", "Loop") and any(a2 is blk for a2, _ in sps[: i]) for i, (anc, key) in enumerate(sps))
                     if in_same and sk[1] >= pk[2] and not cond:
                         key_ok, why = (True, "") if m == "helper" else sort_key_ok(sn, m)
+                        if key_ok and require_stable and "unstable" in m:
+                            key_ok, why = False, "the sort is unstable: entries with the same (index, offset) end up in an order that depends on the whole insertion sequence, which follows hash iteration order"
                         if key_ok:
                             ok = True
                 rets = [r for r, rps in F.walk(blk) if r.get("k") == "Ret" and T._span_key(r["span"])[1] >= pk[2]]
